@@ -42,9 +42,15 @@ def eval_call(ex, e: ast.Call, st: St):
 
 def opaque_star_call(ex, e, st):
     name = ast.unparse(e.func)
-    st.trace.append(("call", name, {}))
-    ex.assumptions.add(f"call with *args/**kwargs `{name}` treated as opaque")
-    yield from opaque_result(ex, name, st, ANY)
+    # evaluate the argument expressions (they may raise / have effects), then treat the call itself as opaque
+    exprs = [a.value if isinstance(a, ast.Starred) else a for a in e.args] + [k.value for k in e.keywords]
+    for s, vals in ex.evs([e.func] + exprs if not isinstance(e.func, ast.Name) else exprs, st):
+        if isinstance(vals, Raised):
+            yield s, vals
+            continue
+        s.trace.append(("call", name, {"star": True}))
+        ex.assumptions.add(f"call with *args/**kwargs `{name}` treated as opaque")
+        yield from opaque_result(ex, name, s, ANY)
 
 
 def ex_next_gen(ex, e, st):
@@ -158,6 +164,7 @@ def opaque_result(ex, name, s: St, ty=ANY, decl=None):
     rty = decl.get("returns", ty)
     v = Val(smt.fresh_v("ret"), rty)
     s.assume(*type_facts(v, s))
+    s.env["_ret_" + "".join(c if c.isalnum() else "_" for c in name).strip("_")] = v  # ghost: result of the opaque call
     if rty == BOOL:
         v = BVal(v.t == smt.TRUE)
     elif rty == INT:
@@ -244,15 +251,17 @@ def b_len(ex, args, kwargs, s):
     elif ty[0] == "set":
         yield s, IVal(h.c["sn"][a.t])
     elif ty[0] == "any":
-        t = a.t
-        yield s, IVal(z3.If(smt.is_dict(t), h.c["dn"][t], z3.If(smt.is_set(t), h.c["sn"][t], h.c["sl"][t])))
-        ex.assumptions.add("len() of an untyped value assumed not to raise")
+        yield s, IVal(h.c["sl"][a.t])
+        ex.assumptions.add("len()/iteration of an untyped value: modelled as a list/tuple, assumed not to raise")
     elif ty[0] == "str":
         n = smt.fresh_int("slen")
         s.assume(n >= 0)
         yield s, IVal(n)
+    elif ex.pure_depth:
+        yield s, IVal(z3.Function("len_undef", V, z3.IntSort())(a.t))  # len() of a non-container inside a spec: unspecified
     else:
-        raise Unsupported(f"len of {ty}")
+        s_bad = s.fork()
+        yield s_bad, Raised("TypeError", None, {"by": "len"})
 
 
 def b_bool(ex, args, kwargs, s):
@@ -471,8 +480,8 @@ def b_sorted(ex, args, kwargs, s):
     j = z3.Int(smt.fresh_name("pj"))
     arr = z3.Lambda([j], to_v(view.at(perm(j)), s))
     s.heap = s.heap.with_comp("sl", z3.Store(s.heap.c["sl"], r.t, view.len)).with_comp("sa", z3.Store(s.heap.c["sa"], r.t, arr))
-    s.assume(z3.ForAll([j], z3.Implies(z3.And(0 <= j, j < view.len), z3.And(0 <= perm(j), perm(j) < view.len, inv(perm(j)) == j)), patterns=[perm(j)]),
-             z3.ForAll([j], z3.Implies(z3.And(0 <= j, j < view.len), z3.And(0 <= inv(j), inv(j) < view.len, perm(inv(j)) == j)), patterns=[inv(j)]))
+    s.assume(smt.forall([j], z3.Implies(z3.And(0 <= j, j < view.len), z3.And(0 <= perm(j), perm(j) < view.len, inv(perm(j)) == j)), patterns=[perm(j)]),
+             smt.forall([j], z3.Implies(z3.And(0 <= j, j < view.len), z3.And(0 <= inv(j), inv(j) < view.len, perm(inv(j)) == j)), patterns=[inv(j)]))
     yield s, r
 
 
